@@ -66,7 +66,7 @@ func genB() *rapid.Generator[Case] {
 		b := &CaseB{Creator: rapid.SampledFrom([]string{"core", "core", "csv", "texttable"}).Draw(t, "creator")}
 		n := rapid.IntRange(2, max).Draw(t, "n")
 		for i := 0; i < n; i++ {
-			k := rapid.SampledFrom([]string{"op", "op", "op", "op", "rowerr", "reg", "reg", "render", "cbrow"}).Draw(t, "step")
+			k := rapid.SampledFrom([]string{"op", "op", "op", "op", "rowerr", "reg", "reg", "render", "cbrow", "update"}).Draw(t, "step")
 			st := StepB{K: k}
 			switch k {
 			case "cbrow":
@@ -76,7 +76,7 @@ func genB() *rapid.Generator[Case] {
 				b.Steps = append(b.Steps, StepB{K: "op", Op: &gen.Op{K: mk}})
 				b.Steps = append(b.Steps, StepB{K: "reg", Owner: "row", Ref: -1, When: rapid.SampledFrom([]int{0, 0, 0, 1, 3}).Draw(t, "cbrow-when"), Target: 1, N: rapid.IntRange(1, 3).Draw(t, "cbrow-n")})
 				if rapid.IntRange(0, 3).Draw(t, "cbrow-err-first") == 0 {
-					b.Steps = append(b.Steps, StepB{K: "rowerr", Ref: -1})
+					b.Steps = append(b.Steps, StepB{K: "rowerr", Ref: -1, Shared: rapid.IntRange(0, 3).Draw(t, "cbrow-shared")})
 				}
 				for a, adds := 0, rapid.IntRange(1, 3).Draw(t, "cbrow-adds"); a < adds; a++ {
 					b.Steps = append(b.Steps, StepB{K: "op", Op: &gen.Op{K: "rowadd", Ref: -1, Items: []gen.Item{item.Draw(t, "item")}}})
@@ -101,8 +101,14 @@ func genB() *rapid.Generator[Case] {
 					op.Ref = rapid.IntRange(0, 3).Draw(t, "ref")
 				}
 				st.Op = &op
+			case "update":
+				st.Ref = rapid.IntRange(0, 7).Draw(t, "ref")
+				st.Col = rapid.IntRange(0, 4).Draw(t, "col")
 			case "rowerr":
 				st.Ref = rapid.IntRange(0, 7).Draw(t, "ref")
+				if rapid.IntRange(0, 2).Draw(t, "shared?") == 0 {
+					st.Shared = rapid.IntRange(1, 3).Draw(t, "shared")
+				}
 			case "reg":
 				st.Owner = rapid.SampledFrom([]string{"table", "column", "row", "cell"}).Draw(t, "owner")
 				st.Ref = rapid.IntRange(0, 7).Draw(t, "ref")
@@ -111,6 +117,9 @@ func genB() *rapid.Generator[Case] {
 				st.Target = rapid.IntRange(0, 2).Draw(t, "target")
 				if rapid.IntRange(0, 2).Draw(t, "many") == 0 {
 					st.N = rapid.IntRange(2, 4).Draw(t, "n")
+				}
+				if rapid.IntRange(0, 3).Draw(t, "shared?") == 0 {
+					st.Shared = rapid.IntRange(1, 3).Draw(t, "shared")
 				}
 			case "render":
 				st.Via = rapid.SampledFrom([]string{"invoke", "csv", "texttable"}).Draw(t, "via")
